@@ -31,6 +31,26 @@ type Cfg struct {
 	Lc    bool   `json:"lc"`
 	Ext   string `json:"ext"`
 	Plain bool   `json:"plain"`
+	Cust  int    `json:"cust,omitempty"` // > 0: a custom schema (NewCustomSchema) whose field constraints differ from the struct tags, see custom()
+}
+
+// custom: the constraints a custom schema puts on top of the struct tags ("any subset of fields indexed / unique").
+//
+//	1: A unique   2: U not indexed   3: V indexed   4: F unique, E not indexed   5: V unique, Z not indexed
+func custom(k int) map[string]sod.Constraints {
+	switch k {
+	case 1:
+		return map[string]sod.Constraints{"A": {Index: true, Unique: true}}
+	case 2:
+		return map[string]sod.Constraints{"U": {}}
+	case 3:
+		return map[string]sod.Constraints{"V": {Index: true}}
+	case 4:
+		return map[string]sod.Constraints{"F": {Index: true, Unique: true}, "E": {}}
+	case 5:
+		return map[string]sod.Constraints{"V": {Index: true, Unique: true}, "Z": {}}
+	}
+	return nil
 }
 
 type BatchEnt struct {
@@ -217,6 +237,15 @@ func (r *Runner) schema() sod.Schema { return schemaFor(r.cfg) }
 func schemaFor(cfg Cfg) sod.Schema {
 	r := struct{ cfg Cfg }{cfg}
 	s := sod.DefaultSchema
+	if cc := custom(cfg.Cust); cc != nil {
+		fds := sod.FieldDescriptors(newObj(cfg.Plain))
+		for f, c := range cc {
+			if err := fds.Constraint(Path[f], c); err != nil {
+				panic(err)
+			}
+		}
+		s = sod.NewCustomSchema(fds, "")
+	}
 	s.Extension = r.cfg.Ext
 	if s.Extension == "" {
 		s.Extension = ".json"
@@ -224,10 +253,22 @@ func schemaFor(cfg Cfg) sod.Schema {
 	s.Compress = r.cfg.Gz
 	s.Cache = r.cfg.Cache
 	if r.cfg.Async {
-		s.Asynchrone(r.cfg.Thr, time.Duration(r.cfg.TmoMs)*time.Millisecond)
+		tmo := r.cfg.TmoMs
+		if clampTimeout && tmo > 1000 {
+			tmo = 300
+		}
+		s.Asynchrone(r.cfg.Thr, time.Duration(tmo)*time.Millisecond)
 	}
 	return s
 }
+
+// clampTimeout: sequential tests whose collection is (or may become) asynchronous and that do not drive the clock
+// themselves run under the virtual clock too, with time standing still: the flusher never fires, whatever its
+// timeout.  The timeout handed to the library is then three poll periods instead of the test's "never" (an hour),
+// because the flusher goroutine of a CLOSED handle keeps polling until its own timeout has elapsed: with an hour it
+// would outlive the test, poll in real time next to the following tests of the process and, worse, walk into THEIR
+// virtual clock.  With three periods the drain at the end of the test retires it.
+var clampTimeout bool
 
 func (r *Runner) proto() sod.Object { return newObj(r.cfg.Plain) }
 
@@ -372,8 +413,11 @@ func (r *Runner) primeFlusher() {
 	if !r.t.VClock {
 		return
 	}
+	_, p0 := vtime.Sleepers()
 	r.db.Schema(r.proto())
 	if s, err := r.db.Schema(r.proto()); err == nil && s.AsyncWrites != nil && s.AsyncWrites.Enable {
+		// the flusher of THIS handle and THESE settings has taken its first decision and is parked
+		vtime.WaitParked(p0, settleBound)
 		settle(1)
 	}
 }
@@ -407,6 +451,10 @@ func RunTest(t *Test, out *json.Encoder, workdir string) {
 	curRunner = r
 	if t.Adopt != "" {
 		r.adopt()
+	}
+	clampTimeout = false
+	if !t.VClock && len(t.Threads) == 0 && mayBeAsync(t) {
+		t.VClock, clampTimeout = true, true
 	}
 	r.emit(ev{"ev": "reset", "id": t.ID})
 	if t.VClock {
@@ -450,6 +498,19 @@ func RunTest(t *Test, out *json.Encoder, workdir string) {
 	r.emit(ev{"ev": "end"})
 }
 
+// mayBeAsync: the collection has asynchronous writes enabled at some point of the test
+func mayBeAsync(t *Test) bool {
+	if t.Cfg.Async {
+		return true
+	}
+	for i := range t.Ops {
+		if c := t.Ops[i].Cfg; c != nil && c.Async {
+			return true
+		}
+	}
+	return false
+}
+
 func (r *Runner) header(createClass string) ev {
 	fields := ev{}
 	for _, f := range FieldNames {
@@ -466,6 +527,15 @@ func (r *Runner) header(createClass string) ev {
 		}
 		if k := CaseKind[f]; k != "" {
 			d["cn"] = k
+		}
+		if c, ok := custom(r.cfg.Cust)[f]; ok {
+			d["ix"], d["uq"] = 0, 0
+			if c.Index || c.Unique {
+				d["ix"] = 1
+			}
+			if c.Unique {
+				d["uq"] = 1
+			}
 		}
 		fields[f] = d
 	}
@@ -763,7 +833,10 @@ func (r *Runner) del(op *Op) {
 func (r *Runner) reopen(op *Op) {
 	c := "ok"
 	if op.Close {
-		c = classify(r.db.Close())
+		var err error
+		r.call(op, func() { err = r.db.Close() })
+		c = classify(err)
+		r.after(op, c)
 	}
 	// what the directory holds once Close has returned
 	r.recs, r.recIdx = []Vals{}, map[string]int{}
@@ -783,14 +856,17 @@ func (r *Runner) reopen(op *Op) {
 
 func (r *Runner) flush(op *Op) {
 	var err error
-	switch op.What {
-	case "all":
-		err = r.db.FlushAll(r.proto())
-	case "allcommit":
-		err = r.db.FlushAllAndCommit(r.proto())
-	case "commit":
-		err = r.db.Commit(r.proto())
-	}
+	r.call(op, func() {
+		switch op.What {
+		case "all":
+			err = r.db.FlushAll(r.proto())
+		case "allcommit":
+			err = r.db.FlushAllAndCommit(r.proto())
+		case "commit":
+			err = r.db.Commit(r.proto())
+		}
+	})
+	r.after(op, classify(err))
 	r.recs, r.recIdx = []Vals{}, map[string]int{}
 	dir := r.walk()
 	r.emit(ev{"ev": "flush", "what": op.What, "c": classify(err), "dir": dir, "recs": r.recs})
@@ -1070,13 +1146,17 @@ func (r *Runner) probesFor(f string) []int {
 
 // ---------------------------------------------------------------- virtual clock (C10, C17)
 
+// settleBound: how long (real time) the driver waits for a flusher goroutine to park.  The waits return as soon as
+// their condition holds; the bound only matters when the goroutine does not exist or is blocked.
+const settleBound = 5 * time.Second
+
 // settle waits (real time) until the flusher goroutines are parked in Sleep.  The bound is generous: on a
 // loaded machine a goroutine may be kept off the CPU for a long time, and returning early would make the
 // driver observe the directory before the flusher has taken its decision.  It returns at once when the
 // condition holds, so the bound only matters when something is wrong: a flusher that has not parked after
-// 20 s does not exist or is blocked, and the step is judged as it is (the event says "settled": false).
+// settleBound does not exist or is blocked, and the step is judged as it is (the event says "settled": false).
 func settle(want int) bool {
-	deadline := time.Now().Add(20 * time.Second)
+	deadline := time.Now().Add(settleBound)
 	for time.Now().Before(deadline) {
 		n, _ := vtime.Sleepers()
 		if n >= want {
@@ -1103,7 +1183,7 @@ func (r *Runner) tick(op *Op) {
 		sl, p0 := vtime.Sleepers()
 		vtime.Advance(100 * time.Millisecond)
 		if sl > 0 {
-			settled = vtime.WaitParked(p0+int64(sl)-1, 20*time.Second) >= p0+int64(sl) && settled
+			settled = vtime.WaitParked(p0+int64(sl)-1, settleBound) >= p0+int64(sl) && settled
 			settled = settle(sl) && settled
 		}
 	}
@@ -1117,7 +1197,9 @@ func (r *Runner) tick(op *Op) {
 // retireFlushers lets the flusher goroutines of closed handles run to completion
 // (they notice the cancelled context at their next due wake-up).
 func (r *Runner) retireFlushers() {
-	for i := 0; i < 200; i++ {
+	// (a flusher polls until ITS timeout has elapsed before it looks at the cancelled context, one poll period per
+	// wake-up: virtual-clock tests use timeouts of a few poll periods)
+	for dl := time.Now().Add(time.Second); time.Now().Before(dl); {
 		n, _ := vtime.Sleepers()
 		if n == 0 {
 			break
@@ -1141,10 +1223,27 @@ func (r *Runner) switchCfg(op *Op) {
 	}
 	old := r.cfg
 	r.cfg = c
-	err := r.db.Create(r.proto(), r.schema())
+	sch := r.schema()
+	if op.What == "gz" {
+		// the schema handed over also asks for the opposite compression: how existing objects are stored is not a
+		// setting Create can change on a populated collection, the request is ignored (files keep their names)
+		sch.Compress = !sch.Compress
+	}
+	err := r.db.Create(r.proto(), sch)
 	cl := classify(err)
 	if err != nil {
 		r.cfg = old
+	}
+	if r.t.VClock && err == nil && old.Async {
+		// the settings were replaced: the flusher goroutine of the old ones finds that out at its next wake-up and
+		// exits.  Let it do so now (no virtual time passes), so that only the successor is parked from here on.
+		vtime.Kick()
+		for dl := time.Now().Add(settleBound); time.Now().Before(dl); {
+			if n, _ := vtime.Sleepers(); n == 0 {
+				break
+			}
+			time.Sleep(100 * time.Microsecond)
+		}
 	}
 	r.primeFlusher()
 	r.emit(ev{"ev": "switch", "c": cl, "cfg": r.cfg})
